@@ -638,6 +638,31 @@ func rawClient(cw *c16World, sc *WireScn, ci int, spec WireClient, cl *Client, f
 				next++
 			}
 			cl.Dead = true
+		case "slow":
+			// a record that arrives in two parts with a silence longer than the server's read deadline in
+			// between. The server may wait, or give up and close; what it must not do is lose its place in the
+			// stream: the only reply that may ever come is the reply to this call.
+			x, b := mk(1, nfsclient.ArgsFH(fhs[0]))
+			wire := nfsclient.Frame(b, nil)
+			cut := 1 + r.Int(len(wire)-1)
+			cl.Conn.Write(wire[:cut])
+			simrt.Fault("net.stall_midrecord")
+			simrt.Sleep(time.Duration([]int{2, 8, 33, 70}[r.Int(4)]) * time.Second)
+			cl.Conn.SetWriteDeadline(time.Now().Add(10 * time.Second))
+			cl.Conn.Write(wire[cut:])
+			cl.Conn.SetReadDeadline(time.Now().Add(75 * time.Second))
+			rec, err := nfsclient.ReadRecord(cl.Conn, 8<<20)
+			o.Tick()
+			if err == nil {
+				if rep, derr := nfsclient.DecodeReply(rec); derr != nil {
+					o.Vio("C14.rpc-reply-malformed", "after=slow-record", "reply after a record that arrived in two parts is not RFC 1831: %v", derr)
+				} else if rep.XID != x {
+					o.Vio("C15.stream-desynchronised", "after=slow-record", "client %d: a call (xid %d) arrived in two parts %d bytes into the record with a long silence in between; the server answered xid %d, a call that was never sent", ci, x, cut, rep.XID)
+				}
+			} else if ne, ok := err.(net.Error); ok && ne.Timeout() {
+				o.Vio("C15.undecodable-stream-not-closed", "act=slow", "client %d: after a record that arrived in two parts (silence in between) the server neither answered nor closed the connection for 75 simulated seconds", ci)
+			}
+			cl.Dead = true
 		case "burst":
 			// several calls in one write: each answered once, in order
 			var xs []uint32
@@ -665,12 +690,18 @@ func rawClient(cw *c16World, sc *WireScn, ci int, spec WireClient, cl *Client, f
 				wire = append(wire, filler...)
 			}
 			m1 = memNow()
+			read0 := cl.Conn.PeerBytesRead()
 			cl.Conn.SetWriteDeadline(time.Now().Add(30 * time.Second))
 			cl.Conn.Write(wire)
 			cl.Conn.SetReadDeadline(time.Now().Add(75 * time.Second))
 			closed := false
 			rec, err := nfsclient.ReadRecord(cl.Conn, 8<<20)
 			o.Tick()
+			// the bound is on what the server takes in for ONE record: it has to give up at the fragment
+			// header that crosses the documented 1 MiB, not after swallowing the whole record
+			if took := cl.Conn.PeerBytesRead() - read0; took > len(b)+4+(1<<20)+(512<<10)+64 {
+				o.Vio("C15.over-limit-record-consumed", "", "client %d: the server consumed %d bytes of one record of %d fragments (documented record limit 1 MiB) before giving up", ci, took, nfr+1)
+			}
 			if err == nil {
 				if rep, derr := nfsclient.DecodeReply(rec); derr == nil && rep.XID == x {
 					o.Vio("C15.over-limit-record-answered", "", "client %d: a record of %d fragments of 512 KiB (%d bytes in total, documented limit 1 MiB) was reassembled and answered", ci, nfr, nfr*len(filler)+len(b))
@@ -847,12 +878,12 @@ func genC15(r *simrt.Rand, tier string) any {
 	case 1:
 		sc.Pol.RLGen = true
 	}
-	acts := []string{"call", "getattr", "two", "frag", "multi", "flip", "garbage", "hugefrag", "hugecred", "cut", "overlimit", "cookie", "burst"}
+	acts := []string{"call", "getattr", "two", "frag", "multi", "flip", "garbage", "hugefrag", "hugecred", "cut", "overlimit", "cookie", "burst", "slow"}
 	nc := 1 + r.Int(3)
 	for c := 0; c < nc; c++ {
 		cl := WireClient{Addr: wireAddrs[1+r.Int(2)]}
 		for i, n := 0, 2+r.Int(6); i < n; i++ {
-			cl.Raw = append(cl.Raw, acts[r.Pick([]int{15, 15, 10, 10, 6, 10, 10, 8, 8, 8, 6, 8, 8})])
+			cl.Raw = append(cl.Raw, acts[r.Pick([]int{15, 15, 10, 10, 6, 10, 10, 8, 8, 8, 6, 8, 8, 8})])
 		}
 		sc.Clients = append(sc.Clients, cl)
 	}
